@@ -240,10 +240,11 @@ def body_strategy(rheologies, finding_weight=1.0):
         return rheo_inputs_strategy(b['rheology']).map(lambda inp: dict(b, rheo_inputs=inp))
     base = st.fixed_dictionaries({
         'log_R': st.floats(5.0, 7.8), 'log_rho': st.floats(2.7, 4.1), 'moi_factor': st.floats(0.2, 0.4),
-        # the rheologies behind C10's known ZeroDivisionError findings get a lower weight (C10: 1:4, others: 1:12 / 3:12)
+        # 'newton' (behind C10's known zero-frequency finding) gets a lower weight outside C10; the non-dissipative
+        # models are a small class of their own
         'rheology': st.sampled_from([r for r in rheologies for _ in range(
-            (1 if r in NONDISSIPATIVE else 4) if finding_weight >= 1.0 else
-            (1 if r in NONDISSIPATIVE else (3 if r == 'newton' else 12)))]),
+            (2 if r in NONDISSIPATIVE else 4) if finding_weight >= 1.0 else
+            (4 if r in NONDISSIPATIVE else (3 if r == 'newton' else 12)))]),
         'tidal_scale': st.one_of(st.just(1.0), st.floats(0.05, 1.0)),
         'fixed_k2': st.floats(0.01, 1.4), 'log_fixed_q': st.floats(0.5, 5.0),
         'dt_factor': st.one_of(st.none(), st.floats(-2.0, 2.0)),   # None: the function's own default 1/(Q n)
@@ -496,7 +497,8 @@ def _ecc_table_func(l, trunc):
     key = ('e', l, trunc)
     if key not in _tbl_cache:
         mod = importlib.import_module('TidalPy.tides.eccentricity_funcs.orderl%d' % l)
-        _tbl_cache[key] = getattr(mod, 'eccentricity_funcs_trunc%d' % trunc).py_func
+        f = getattr(mod, 'eccentricity_funcs_trunc%d' % trunc)
+        _tbl_cache[key] = getattr(f, 'py_func', f)       # un-jitted when jitted, the function itself otherwise
     return _tbl_cache[key]
 
 
@@ -504,7 +506,8 @@ def _inc_table_func(l, on):
     key = ('i', l, on)
     if key not in _tbl_cache:
         mod = importlib.import_module('TidalPy.tides.inclination_funcs.orderl%d' % l)
-        _tbl_cache[key] = getattr(mod, 'calc_inclination' if on else 'calc_inclination_off').py_func
+        f = getattr(mod, 'calc_inclination' if on else 'calc_inclination_off')
+        _tbl_cache[key] = getattr(f, 'py_func', f)
     return _tbl_cache[key]
 
 
@@ -514,7 +517,8 @@ def universal_coeff(l, m):
 
 def compliance_pyfunc(name):
     from TidalPy.rheology.complex_compliance import known_models
-    return known_models[name].py_func
+    f = known_models[name]
+    return getattr(f, 'py_func', f)
 
 
 def love_number(l, J, shear, rho, g, R):
@@ -555,8 +559,8 @@ class ModeSum:
 def mode_sum(su, body, trunc=None, with_love=True):
     """Sum every (l, m, p, q) mode separately.  Returns an object with heating, dUdM, dUdw, dUdO (arrays of
     length su.k), their absolute-value scales, `scale_id` (scale of n dUdM - spin dUdO), number of distinct
-    non-zero |w| with non-zero coefficient, passive / finite flags, and the per-degree average Love number
-    over the distinct frequency signatures the repository's grouping produces."""
+    non-zero |w| with non-zero coefficient, passive / finite flags, and `love_modes`: per degree the closed-form Love
+    number at every mode frequency (for C12's grouping-agnostic hull check)."""
     trunc = su.trunc if trunc is None else trunc
     k = su.k
     n = su.n
@@ -582,10 +586,11 @@ def mode_sum(su, body, trunc=None, with_love=True):
     finite = True
     freqs = [set() for _ in range(k)]
     love_cache = {}
-    sig_by_l = {}
+    hull_by_l = {}
     zero_freq = False
-    # the repository drops the n_coeff == m modes when `orbital_frequency is spin_frequency`; inside numba that is
-    # identity for arrays but *value* equality for floats (only matters for the per-degree Love-number average)
+    # the repository drops the n_coeff == m modes (zero frequency, zero contribution) when `orbital_frequency is
+    # spin_frequency`; inside numba that is identity for arrays but *value* equality for floats.  Only used to decide
+    # whether a zero-frequency mode is evaluated at all (Newton finding); the sums do not depend on it.
     skip_sync = body.sync or (su.as_array in (False, 'e', 'visc') and float(spin[0]) == float(n[0]))
     for l in range(2, su.l_max + 1):
         ecc = _ecc_table_func(l, trunc)(e)
@@ -598,29 +603,25 @@ def mode_sum(su, body, trunc=None, with_love=True):
                 ncoef = l - 2 * p + q
                 if m == 0 and ncoef == 0:
                     continue
-                if skip_sync and ncoef == m:
-                    continue
                 w = ncoef * n - m * spin
                 aw = np.abs(w)
+                # per-degree set of closed-form Love numbers over EVERY mode frequency of the enumeration, including
+                # the n_coeff == m modes of a synchronous body that the repository may or may not keep: C12 only asks
+                # that a reported per-degree value lies inside their hull (independent of any grouping by frequency)
+                key = (l, ncoef, m)
+                if key not in love_cache:
+                    kl, pas, fin = body_love(body, l, aw)
+                    love_cache[key] = (kl, pas, fin)
+                hull_by_l.setdefault(l, []).append((aw, love_cache[key][0]))
+                finite = finite and love_cache[key][2]
+                if skip_sync and ncoef == m:
+                    continue
+                passive = passive and love_cache[key][1]
                 if np.any(aw <= FLOAT_EPS):      # the rheology functions treat |w| <= eps as w = 0
                     zero_freq = True
                 sg = np.sign(w)
                 u = dist * c * np.asarray(F2, dtype=float) * np.asarray(G2, dtype=float) * np.ones(k)
-                # frequency signature as the repository groups it (only used for the per-degree average)
-                if m == 0:
-                    sig = (abs(ncoef), 0)
-                elif ncoef == 0:
-                    sig = (0, m)
-                else:
-                    sig = (ncoef, -m)
-                key = (l, ncoef, m)
-                if key not in love_cache:
-                    kl, pas, fin = body_love(body, l, aw)
-                    love_cache[key] = kl
-                    passive = passive and pas
-                    finite = finite and fin
-                kl = love_cache[key]
-                sig_by_l.setdefault(l, {})[sig] = kl
+                kl = love_cache[key][0]
                 K = -kl.imag * body.tidal_scale
                 kmax = np.maximum(kmax, np.abs(K))
                 uK = u * K
@@ -652,26 +653,61 @@ def mode_sum(su, body, trunc=None, with_love=True):
     out.has_zero_freq = zero_freq     # some mode of the enumeration has (numerically) zero frequency
     out.finite = finite
     out.n_freq = [len(f) for f in freqs]
-    out.love_avg = {}
-    for l, d in sig_by_l.items():
-        ks = list(d.values())
-        re = sum(x.real for x in ks) / len(ks)
-        im = sum(x.imag for x in ks) / len(ks) * body.tidal_scale
-        out.love_avg[l] = re + 1.0j * im
-    out.n_sig = {l: len(d) for l, d in sig_by_l.items()}
+    out.love_modes = hull_by_l        # l -> [(|w| array, k_l(|w|) array)] for every mode of the enumeration
     return out
 
 
+def love_hull_check(ms, l, got, tidal_scale, slack):
+    """Is the reported per-degree Love number `got` (complex array, one entry per element) consistent with the
+    closed form?  The repository reports ONE value per degree although the modes of that degree have different
+    frequencies (today: an average over its frequency signatures, tidal_scale applied to the imaginary part).  How modes
+    are grouped and averaged is not part of any property, so the oracle is grouping-agnostic:
+      * all modes of the degree share one frequency (or the Love number does not depend on frequency)  =>  `got` must
+        equal the closed form k, or Re k + i ts Im k, or ts k  (ts = tidal_scale) within `slack` relative;
+      * otherwise Re and Im of `got` must lie within [min, max] of those candidates over the modes (+- slack * max|k|).
+    Returns (ok, single_frequency, detail)."""
+    modes = ms.love_modes.get(l, [])
+    if not modes:
+        return True, False, 'no modes'
+    ks = np.array([k for _, k in modes])                   # (n_modes, n_elements)
+    cand = np.concatenate([ks, ks.real + 1.0j * tidal_scale * ks.imag, tidal_scale * ks])
+    mag = np.max(np.abs(cand), axis=0)
+    tol = slack * mag + 1e-300
+    spread = np.max(np.abs(ks - ks[0]), axis=0)
+    single = bool(np.all(spread <= tol))
+    got = np.asarray(got, dtype=complex) * np.ones(ks.shape[1])
+    if single:
+        k0 = ks[0]
+        d = np.minimum(np.minimum(np.abs(got - k0), np.abs(got - (k0.real + 1.0j * tidal_scale * k0.imag))),
+                       np.abs(got - tidal_scale * k0))
+        ok = bool(np.all(d <= 2.0 * tol))
+        return ok, True, 'single frequency: closed form %r, reported %r' % (k0[:3], got[:3])
+    lo_r, hi_r = cand.real.min(axis=0) - tol, cand.real.max(axis=0) + tol
+    lo_i, hi_i = cand.imag.min(axis=0) - tol, cand.imag.max(axis=0) + tol
+    ok = bool(np.all((got.real >= lo_r) & (got.real <= hi_r) & (got.imag >= lo_i) & (got.imag <= hi_i)))
+    return ok, False, ('%d mode frequencies: Re k in [%r, %r], Im k in [%r, %r]; reported %r'
+                       % (ks.shape[0], lo_r[:3], hi_r[:3], lo_i[:3], hi_i[:3], got[:3]))
+
+
 def known_exception_class(body, ms, exc):
-    """Classify an exception escaping quick_tidal_dissipation for `body` into one of the two C10 known findings
-    (both ZeroDivisionError inside collapse_modes), or None."""
-    if not isinstance(exc, ZeroDivisionError):
+    """'newton_zero_frequency' when `exc` is C10's known finding KF-C10-newton-zero-frequency, else None.
+    Required: rheology 'newton', a (numerically) zero-frequency mode in the harness enumeration, a *complex* division by
+    zero, and the innermost repository frame being the collapse_modes call of quick_tidal_dissipation (the Love-number
+    path) - a ZeroDivisionError from the dynamics functions (de/dt at e = 0) or anywhere else is never excused."""
+    import traceback
+    if not isinstance(exc, ZeroDivisionError) or 'complex division' not in str(exc):
         return None
-    if body.rheology in NONDISSIPATIVE:
-        return 'zero_dissipation_effective_q'
-    if body.rheology == 'newton' and ms.has_zero_freq:
-        return 'newton_zero_frequency'
-    return None
+    if body.rheology != 'newton' or not ms.has_zero_freq:
+        return None
+    frames = [fs for fs in traceback.extract_tb(exc.__traceback__) if fs.filename.endswith('quick_tides.py')]
+    if frames:
+        line = frames[-1].line or ''
+        if line and 'collapse_modes' not in line:
+            return None
+    for fs in traceback.extract_tb(exc.__traceback__):
+        if os.sep + 'dynamics' + os.sep in fs.filename:
+            return None
+    return 'newton_zero_frequency'
 
 
 def selftest_common():
